@@ -1,8 +1,8 @@
 /-
   Driver for the prefetch model (stateful).  Requests:
-    init <hex file> <maxReq>            → ok
+    init <hex file> <maxReq> [bufsize]  → ok      (bufsize 0/absent = unbuffered, else FLAG_BUFFERED with that _bufsize)
     a serve <k> | a servefail <code> | a tc <i> | a ta <i> | a ts <i> | a tr <i> | a r
-    a op seek <n> | a op read <n|none> | a op prefetch <size> <cap|none> | a op readv <cap|none> <o:l,o:l,…|->
+    a op seek <n> | a op read <n|none> | a op readat <off> <n|none> (one readv block: seek+read) | a op prefetch <size> <cap|none> | a op readv <cap|none> <o:l,o:l,…|->
                                         → ok | disabled
     en                                  → enabled set:  S T<i>… R   (or -)
     st                                  → E[num:off:len,…] B[off:len,…] d<0|1> p<0|1> pos<n> x<saved 0|1>
@@ -35,6 +35,10 @@ def parseAct : List String → Option Act
   | ["r"] => some .rStep
   | ["op", "seek", n] => n.toNat?.map fun x => .rOp (.seek x)
   | ["op", "read", n] => if n == "none" then some (.rOp (.read none)) else n.toNat?.map fun x => .rOp (.read (some x))
+  | ["op", "readat", o, n] =>
+    match o.toNat? with
+    | some off => if n == "none" then some (.rOp (.readAt off none)) else n.toNat?.map fun x => .rOp (.readAt off (some x))
+    | none => none
   | ["op", "prefetch", sz, cap] =>
     match sz.toNat?, parseCap cap with
     | some x, some c => some (.rOp (.prefetch x c))
@@ -55,13 +59,36 @@ def enabledSet (s : St) : String :=
   let all := sv ++ ts ++ r
   if all.isEmpty then "-" else " ".intercalate all
 
+def runningCtx : Pc → Option RCtx
+  | .idle => none
+  | .cont c => some c
+  | .recvPf c => some c
+  | .dispPf c _ _ => some c
+  | .allocSync c => some c
+  | .sendSync c _ => some c
+  | .recvSync c _ => some c
+  | .dispSync c _ _ _ => some c
+
+/-- what `_pos` / `len(_rbuffer)` show in the middle of a read: `read(n)` gathers in `_rbuffer` and moves `_pos` at
+    the end; `read()` empties `_rbuffer` first and moves `_pos` with every piece -/
+def shownPos (s : St) : Nat :=
+  match runningCtx s.pc with
+  | some c => (match c.want with | some _ => s.pos | none => c.start + c.acc.length)
+  | none => s.pos
+
+def shownRb (s : St) : Nat :=
+  match runningCtx s.pc with
+  | some c => (match c.want with | some _ => c.acc.length | none => 0)
+  | none => s.rbuf.length
+
 def digest (s : St) : String :=
   let ext := s.extents.mergeSort (fun a b => a.1 ≤ b.1)
   let bufs := s.bufs.mergeSort (fun a b => a.1 ≤ b.1)
   let b01 (b : Bool) := if b then "1" else "0"
   "E[" ++ ",".intercalate (ext.map fun e => s!"{e.1}:{e.2.1}:{e.2.2}") ++ "] B[" ++
     ",".intercalate (bufs.map fun e => s!"{e.1}:{e.2.length}") ++ "] d" ++ b01 s.done ++ " p" ++ b01 s.prefetching ++
-    " pos" ++ toString s.realpos ++ " x" ++ b01 s.saved.isSome
+    " pos" ++ toString s.realpos ++ " x" ++ b01 s.saved.isSome ++ " fp" ++ toString (shownPos s) ++ " rb" ++
+    toString (shownRb s)
 
 def showOut (s : St) : String :=
   if s.out.isEmpty then "-" else
@@ -74,6 +101,10 @@ def stepLine (st : Option St) (line : String) : Option St × String :=
     match ofHex? hex, m.toNat? with
     | some f, some mr => (some (init f mr), "ok")
     | _, _ => (st, "bad-op")
+  | ["init", hex, m, b], _ =>
+    match ofHex? hex, m.toNat?, b.toNat? with
+    | some f, some mr, some bs => (some (init f mr bs), "ok")
+    | _, _, _ => (st, "bad-op")
   | "a" :: rest, some s =>
     match parseAct rest with
     | none => (st, "bad-op")
